@@ -393,6 +393,42 @@ func (cp *CrashPoint) Build(pt Pattern) *FS {
 	return nf
 }
 
+// Key is a canonical description of the crash state (durable and volatile content
+// of every file, pending namespace operations): equal keys yield equal sets of images.
+func (cp *CrashPoint) Key() string {
+	var sb strings.Builder
+	names := make([]string, 0, len(cp.base))
+	for n := range cp.base {
+		names = append(names, n)
+	}
+	sort.Strings(names)
+	inos := map[int]bool{}
+	for _, n := range names {
+		fmt.Fprintf(&sb, "%s=%d;", n, cp.base[n])
+		inos[cp.base[n]] = true
+	}
+	for _, e := range cp.Pending {
+		fmt.Fprintf(&sb, "%d:%s>%s#%d;", e.Kind, e.Name, e.Name2, e.Ino)
+		if e.Kind == EvCreate {
+			inos[e.Ino] = true
+		}
+	}
+	ids := make([]int, 0, len(inos))
+	for i := range inos {
+		ids = append(ids, i)
+	}
+	sort.Ints(ids)
+	for _, i := range ids {
+		st := cp.inodes[i]
+		fmt.Fprintf(&sb, "|%d:%x", i, st.synced)
+		for _, e := range st.ops {
+			fmt.Fprintf(&sb, ",%d@%d/%d:%x:%v", e.Kind, e.Off, e.Size, e.Data, e.Atomic)
+		}
+	}
+	fmt.Fprintf(&sb, "|full=%v", cp.full)
+	return sb.String()
+}
+
 // Describe renders the per-file sync state at the crash point (diagnostics).
 func (cp *CrashPoint) Describe() string {
 	var sb strings.Builder
